@@ -48,23 +48,39 @@ package algo
 //@ ensures slab != nil && cap(slab.I32) > offset + size ==> r0 == offset + size && r1 == old(slab.I32[offset:offset+size])
 //@ ensures !(slab != nil && cap(slab.I32) > offset + size) ==> r0 == offset && fresh(r1) && r1.off == 0 && init(r1, 0, size) && forall(k, 0, size, r1[k] == 0)
 
+//@ spec func clsNA(r rune) int = isLower(r) ? 3 : (isUpper(r) ? 4 : (isNumber(r) ? 6 : (isLetter(r) ? 5 : (isSpace(r) ? 0 : (crune(delimiterChars, r) ? 2 : 1)))))
+//@ spec func cls(r rune) int = r <= 127 ? asciiCharClasses[r] : clsNA(r)
+// class of the character before position i (the initial class at the start of the line)
+//@ spec func pcls(c *util.Chars, i int) int = i > 0 ? cls(at(c, i - 1)) : initialCharClass
+//@ spec func bonusS(c *util.Chars, i int) int = bonusMatrix[pcls(c, i)][cls(at(c, i))]
+
 //@ func charClassOfNonAscii
-//@ property C02
+//@ property C02 C03
 //@ ensures 0 <= result && result <= 6
+//@ ensures result == clsNA(char)
 
 //@ func charClassOf
-//@ property C02
+//@ property C02 C03
 //@ requires 0 <= char
 //@ ensures 0 <= result && result <= 6
+//@ ensures result == cls(char)
+
+// The documented bonus table: a word character after white space / a delimiter / another non-word
+// character starts a word (scheme-dependent boundary bonuses, 8 for a plain boundary); lower->Upper and
+// non-digit->digit transitions get the camelCase bonus 7; non-word characters and delimiters get 8,
+// white space gets the white-space boundary bonus; everything else 0.
+//@ spec func bonusSpec(p int, c int) int = (c > 1 && p == 0) ? bonusBoundaryWhite : ((c > 1 && p == 2) ? bonusBoundaryDelimiter : ((c > 1 && p == 1) ? 8 : (((p == 3 && c == 4) || (p != 6 && c == 6)) ? 7 : ((c == 1 || c == 2) ? 8 : (c == 0 ? bonusBoundaryWhite : 0)))))
 
 //@ func bonusFor
 //@ property C02 C03
 //@ ensures 0 <= result && result <= 10
+//@ ensures result == bonusSpec(prevClass, class)
 
 //@ func bonusAt
-//@ property C02
+//@ property C02 C03
 //@ requires input != nil && validChars(input) && 0 <= idx && idx < clen(input)
 //@ ensures 0 <= result && result <= 10
+//@ ensures result == (idx == 0 ? bonusBoundaryWhite : bonusS(input, idx))
 
 //@ func normalizeRune
 //@ property C02
@@ -113,8 +129,19 @@ package algo
 // greedy scan of c[s:i) - the definition of "p is a subsequence of c[s:i)".
 //@ spec func g(c *util.Chars, p []rune, cs bool, nz bool, s int, i int) int = i <= s ? 0 : ((g(c, p, cs, nz, s, i - 1) < len(p) && hitp(c, i - 1, p, g(c, p, cs, nz, s, i - 1), cs, nz)) ? g(c, p, cs, nz, s, i - 1) + 1 : g(c, p, cs, nz, s, i - 1)) decreases i - s
 
+// The documented scoring rule as a left fold over c[s:i): 16 per matched character plus its bonus
+// (doubled for the first pattern character); inside a run of consecutive matches the bonus is at least
+// the bonus of the run's first character and at least 4, unless the character starts a new word with a
+// larger bonus; a gap costs 3 for its first character and 1 for each further one.
+//@ spec func stepHit(c *util.Chars, p []rune, cs bool, nz bool, s int, i int) bool = g(c, p, cs, nz, s, i + 1) == g(c, p, cs, nz, s, i) + 1
+//@ spec func consS(c *util.Chars, p []rune, cs bool, nz bool, s int, i int) int = i <= s ? 0 : (stepHit(c, p, cs, nz, s, i - 1) ? consS(c, p, cs, nz, s, i - 1) + 1 : 0) decreases i - s
+//@ spec func fbS(c *util.Chars, p []rune, cs bool, nz bool, s int, i int) int = i <= s ? 0 : (stepHit(c, p, cs, nz, s, i - 1) ? (consS(c, p, cs, nz, s, i - 1) == 0 ? bonusS(c, i - 1) : ((bonusS(c, i - 1) >= 8 && bonusS(c, i - 1) > fbS(c, p, cs, nz, s, i - 1)) ? bonusS(c, i - 1) : fbS(c, p, cs, nz, s, i - 1))) : 0) decreases i - s
+//@ spec func effB(c *util.Chars, p []rune, cs bool, nz bool, s int, i int) int = consS(c, p, cs, nz, s, i) == 0 ? bonusS(c, i) : max(max(bonusS(c, i), fbS(c, p, cs, nz, s, i + 1)), 4)
+//@ spec func scS(c *util.Chars, p []rune, cs bool, nz bool, s int, i int) int = i <= s ? 0 : scS(c, p, cs, nz, s, i - 1) + (stepHit(c, p, cs, nz, s, i - 1) ? 16 + (g(c, p, cs, nz, s, i - 1) == 0 ? 2 : 1) * effB(c, p, cs, nz, s, i - 1) : ((i - 1 > s && !stepHit(c, p, cs, nz, s, i - 2)) ? -1 : -3)) decreases i - s
+
 //@ func calculateScore
-//@ property C02
+//@ property C02 C03
+//@ ensures[C03] r0 == scS(text, pattern, caseSensitive, normalize, sidx, eidx)
 //@ requires text != nil && validChars(text) && validRunes(pattern) && 0 <= sidx && sidx <= eidx && eidx <= clen(text) && len(pattern) <= 2147483648
 //@ requires forall(i, sidx, eidx, g(text, pattern, caseSensitive, normalize, sidx, i) < len(pattern))
 //@ ensures !withPos ==> r1 == nil
@@ -124,6 +151,9 @@ package algo
 //@ loop 1
 //@   invariant sidx <= idx && idx <= eidx && pidx == g(text, pattern, caseSensitive, normalize, sidx, idx) && 0 <= pidx
 //@   invariant 0 <= prevClass && prevClass <= 6 && 0 <= consecutive && 0 <= firstBonus && firstBonus <= 10
+//@   invariant[C03] prevClass == pcls(text, idx) && score == scS(text, pattern, caseSensitive, normalize, sidx, idx)
+//@   invariant[C03] consecutive == consS(text, pattern, caseSensitive, normalize, sidx, idx) && firstBonus == fbS(text, pattern, caseSensitive, normalize, sidx, idx)
+//@   invariant[C03] inGap == (idx > sidx && !stepHit(text, pattern, caseSensitive, normalize, sidx, idx - 1))
 //@   invariant withPos ==> pos != nil && fresh(pos) && fresh(*pos) && len(*pos) == pidx
 //@   invariant !withPos ==> pos == nil
 //@   invariant withPos ==> forall(k, 0, pidx, sidx <= (*pos)[k] && (*pos)[k] < idx && hitp(text, (*pos)[k], pattern, k, caseSensitive, normalize))
